@@ -66,7 +66,7 @@ func bundleRecMain() int {
 				b := []byte(c.Raw)
 				for k, m := 0, 1+r.Intn(3); k < m && len(b) > 0; k++ {
 					pos := r.Intn(len(b))
-					switch r.Intn(5) {
+					switch r.Intn(7) {
 					case 0:
 						b = append(b[:pos], b[pos+1:]...)
 					case 1:
@@ -78,6 +78,29 @@ func bundleRecMain() int {
 						if q := indexFrom(b, '"', pos); q >= 0 {
 							if e := indexFrom(b, '"', q+1); e > q {
 								b = append(b[:q+1], append([]byte(hostile[r.Intn(len(hostile))]), b[e:]...)...)
+							}
+						}
+					case 5, 6: // replace a whole object or array by another kind of JSON value
+						open, close := byte('{'), byte('}')
+						if r.Intn(2) == 0 {
+							open, close = '[', ']'
+						}
+						if q := indexFrom(b, open, pos); q >= 0 {
+							depth, e := 0, -1
+							for i := q; i < len(b); i++ {
+								if b[i] == open {
+									depth++
+								} else if b[i] == close {
+									depth--
+									if depth == 0 {
+										e = i
+										break
+									}
+								}
+							}
+							if e > q {
+								v := []string{"null", "0", "true", "\"x\"", "[]", "{}", "[null]", "{\"source\":null}"}[r.Intn(8)]
+								b = append(b[:q], append([]byte(v), b[e+1:]...)...)
 							}
 						}
 					case 4: // duplicate a stretch (a key, an entry)
